@@ -26,6 +26,8 @@ var (
 	aeReject = []string{"br", "identity", "", "deflate", "GZIP", "Gzip", "*", "compress, br;q=0.9", "gzi, p"}
 	// the weight says "not acceptable" although the name occurs
 	aeRefused = []string{"gzip;q=0", "gzip;q=0.0", "deflate, gzip;q=0.000", "gzip; q=0", "br, gzip ;q=0", "identity, gzip;Q=0"}
+	aeOdd     = []string{"gzip;q", "gzip;q=", "gzip;q=0.0.0", "gzip;q=0e0", "gzip;q=1e-400", "gzip;q=3e-324", "gzip;q=0x0p0", "gzip;q=inf", "gzip;q=-0",
+		"gzip;q=0_0", "gzip;q=1e400", "br, gzip;q=0E-7"}
 	accepts   = []string{"text/html", "*/*", "text/html,application/xhtml+xml;q=0.9,*/*;q=0.8", "application/json"}
 	codesBody = []int{200, 200, 200, 201, 404, 500, 206, 203, 301}
 	codesNone = []int{204, 304}
@@ -156,6 +158,8 @@ func genCase(r *hx.Rand, layer string, opt genOpt, thorough bool) In {
 		in.Req = append(in.Req, [2]string{aeKey, r.Pick([]string{"br", "gzip", "deflate"})}, [2]string{"Accept-Encoding", r.Pick([]string{"gzip", "br"})})
 	case k < 18 && opt.refused:
 		in.Req = append(in.Req, [2]string{aeKey, r.Pick(aeRefused)})
+	case k < 19: // weights outside the RFC's grammar (the code reads them with strconv.ParseFloat); see c17.weight
+		in.Req = append(in.Req, [2]string{aeKey, r.Pick(aeOdd)})
 	default: // absent
 	}
 	if r.Chance(1, 4) {
